@@ -39,6 +39,18 @@ func L1(pageSize uint32) Layout {
 	return Layout{Name: "L1", PageSize: pageSize, Map: []uint32{0, 1, 256, 257, 512, 513, 768, 769, 1024}}
 }
 
+// L2 puts a size change of one model page next to a block boundary: sizes 2 and 3 are 257 and 258
+// real pages (a shrink by exactly one page inside block 1, whose first page is model page 2).
+func L2(pageSize uint32) Layout {
+	return Layout{Name: "L2", PageSize: pageSize, Map: []uint32{0, 1, 257, 258, 259, 513, 514, 770, 771}}
+}
+
+// L3 makes a model page the LAST page of a checksum block with another model page earlier in the same
+// block: model pages 2 and 3 are real pages 257 and 512 (block 1), 4 and 5 are 513 and 768 (block 2).
+func L3(pageSize uint32) Layout {
+	return Layout{Name: "L3", PageSize: pageSize, Map: []uint32{0, 1, 257, 512, 513, 768, 769, 1024, 1025}}
+}
+
 // Real returns the real page number of model page p (0 -> 0).
 func (l Layout) Real(p int) uint32 {
 	if p <= 0 {
